@@ -53,6 +53,8 @@ fn run_val(v: &Val, prefill: &[u8]) -> (W, W, W, Result<Vec<u8>, String>) {
         Val::Section(_) => write_with(&v2::TypeLengthValues::from(bytes.as_slice()), prefill),
         Val::SectionAdv(_, k) => write_with(&crate::hist::advanced(bytes.as_slice(), *k), prefill),
         Val::Type(t) => write_with(&TYPES[*t], prefill),
+        // caller-defined impls are not C20's subject (the generator below never produces them)
+        Val::Custom(..) => write_with(bytes.as_slice(), prefill),
     }
 }
 
@@ -184,7 +186,10 @@ fn gen(stream_name: &str, idx: u64, rng: &mut Rng) -> (Val, Blob) {
                 _ => Val::SectionAdv(Blob::new(b.seed, l.min(65535)), 1 + (idx / 24 % 3) as u8),
             }
         }
-        _ => rand_val(rng, true),
+        _ => match rand_val(rng, true) {
+            Val::Custom(b, _) => Val::Bytes(b),
+            v => v,
+        },
     };
     // keep the writer below its limit after the write: |P| <= 65535 - |enc(x)|
     let need = v.encode().map(|e| e.len()).unwrap_or(0);
